@@ -543,6 +543,14 @@ def check_history(ctx, scen, idx, lines, info=None):
 
 def _publish_domain(ctx):
     ctx.distribution['io_real_trace_vs_cache_theorem_domain'] = {k: (dict(v) if isinstance(v, dict) else v) for k, v in CACHE_DOMAIN.items()}
+    # the hypothesis of Io_cache.checked_step_in_domain, decided by the EXTRACTED Io_flat.evs_ok on the events of every call
+    # (per call and file; the event lists are the ones compared with the real trace): calls inside / outside the domain in which
+    # the cache theorem (Cache_x.cache_refines_xflat) applies
+    dom = {k[len('cache_domain:'):]: v for k, v in FEATURES.items() if k.startswith('cache_domain:')}
+    ctx.distribution['calls_in_the_domain_of_the_cache_theorem'] = {
+        'call_file_pairs_inside': sum(v for k, v in dom.items() if k.endswith(':in')),
+        'call_file_pairs_outside': sum(v for k, v in dom.items() if ':OUT' in k),
+        'by_call': dict(sorted(dom.items()))}
 
 
 def scen_io(ctx, n_hist=None, n_big=None, n_casc=None, n_sparse=None, n_reopen=0):
